@@ -124,19 +124,20 @@ def code_view(recipe, structure):
     produces for a file that lists a residue's atoms in two blocks).  Measurement and indexing use the
     merged view - a residue is what its identity says."""
     if recipe["variant"] != "splitres":
-        return structure
+        return structure, []
     from rnapolis.tertiary import Residue3D, Structure3D
     rng = random.Random(f"{lib.seed()}|{recipe['file']}|splitres|{recipe.get('seed', 0)}")
-    main, tail = [], []
-    for r in structure.residues:
+    main, tail, split = [], [], []
+    for k, r in enumerate(structure.residues):
         ph = tuple(a for a in r.atoms if a.name in PHOSPHATE_GROUP)
         rest = tuple(a for a in r.atoms if a.name not in PHOSPHATE_GROUP)
         if ph and rest and rng.random() < recipe.get("param", 0.3):
             main.append(Residue3D(r.label, r.auth, r.model, r.one_letter_name, rest))
             tail.append(Residue3D(r.label, r.auth, r.model, r.one_letter_name, ph))
+            split.append(k + 1)
         else:
             main.append(r)
-    return Structure3D(main + tail)
+    return Structure3D(main + tail), split
 
 
 def _rotation(rng):
@@ -632,12 +633,13 @@ def record(recipe, family):
     """One recorded case for the given clause family ("C03" | "C04" | "C11")."""
     K = measurer.constants()
     structure, ann_model = build(recipe)
-    bi, err = annotate(code_view(recipe, structure), ann_model)
+    seen, split = code_view(recipe, structure)
+    bi, err = annotate(seen, ann_model)
     M = measurer.measure(structure, K, ann_model)
     P = Projection(structure, ann_model)
     P.mark(M)
     case = {"id": recipe["id"], "kind": "ann", "recipe": recipe, "model": 0 if ann_model is None else int(ann_model),
-            "err": err, "res": P.res}
+            "err": err, "res": P.res, "split": split}
     if family == "C04":
         _project_stacking(case, M, P, bi)
     elif family == "C03":
